@@ -1126,12 +1126,14 @@ def mpf_ellipe(x, prec, rnd=round_fast):
     if mag < -wp:
         return mpf_shift(mpf_pi(prec, rnd), -1)
     # Compute a finite difference for K'
-    p = max(mag, 0) - wp
+    t = mpf_sub(fone, x)
+    # The step must be small compared to the distance 1-x to the
+    # singularity of K as well (the truncation error is ~ h/(1-x))
+    p = max(mag, 0) + min(t[2]+t[3], 0) - wp
     h = mpf_shift(fone, p)
     K = mpf_ellipk(x, 2*wp)
     Kh = mpf_ellipk(mpf_sub(x, h), 2*wp)
     Kdiff = mpf_shift(mpf_sub(K, Kh), -p)
-    t = mpf_sub(fone, x)
     b = mpf_mul(Kdiff, mpf_shift(x,1), wp)
     return mpf_mul(t, mpf_add(K, b), prec, rnd)
 
@@ -1144,11 +1146,14 @@ def mpc_ellipe(z, prec, rnd=round_fast):
             return mpf_ellipe(re, prec, rnd), fzero
     wp = prec + 15
     mag = mpc_abs(z, 1)
-    p = max(mag[2]+mag[3], 0) - wp
+    t = mpc_sub(mpc_one, z, wp)
+    tmag = mpc_abs(t, 1)
+    # The step must be small compared to the distance |1-z| to the
+    # singularity of K as well
+    p = max(mag[2]+mag[3], 0) + min(tmag[2]+tmag[3], 0) - wp
     h = mpf_shift(fone, p)
     K = mpc_ellipk(z, 2*wp)
-    Kh = mpc_ellipk(mpc_add_mpf(z, h, 2*wp), 2*wp)
+    Kh = mpc_ellipk((mpf_add(re, h), im), 2*wp)
     Kdiff = mpc_shift(mpc_sub(Kh, K, wp), -p)
-    t = mpc_sub(mpc_one, z, wp)
     b = mpc_mul(Kdiff, mpc_shift(z,1), wp)
     return mpc_mul(t, mpc_add(K, b, wp), prec, rnd)
